@@ -23,6 +23,22 @@ CHECKS = {
    technique="TLA+ reference semantics + trace validation on corpus files"),
 }
 
+RUNTRUST = "strace (file-mutating system calls, fault injection), prlimit, lstat/SHA-256 tree digests, go/parser and the strict diff applier of harness/api.go as observers; the abstraction of stdout/stderr into per-file parts (lib/fam_run.py: unrecognised output fails the predicates); TLC evaluating Pipeline.tla / TraceModes.tla; bounds as stated in the evidence file"
+CHECKS.update({
+ "C06": dict(level="model_checking", ref="5/C06", note=RUNTRUST,
+   text="Pipeline.tla models mainCmd.Run as a state machine over file kinds, flags and faults; TLC checks the C06 predicates on every reachable state of every scenario in the bounds. Scenarios containing unmatched files (seven layouts incl. CRLF, non-gofmt, odd comments, build tags, near-misses) are run through the real binary; the stage events of the verif hooks are validated step by step against the model's actions (TracePipeline.tla) and the C06 predicates are evaluated by TLC on the observed disk / stdout / stderr / exit / touched-files state.",
+   technique="TLA+ pipeline model + TLC + trace validation of hook events and black-box observations"),
+ "C07": dict(level="model_checking", ref="5/C07", note=RUNTRUST,
+   text="TLC checks 'emitted content parses' and 'unparseable result is reported' on the pipeline model for all flag combinations; scenarios with a change whose result does not parse are replayed into the real binary and judged on the observed state; additionally ill-fitting replacements (type positions, restricted slots) are run in write, print, diff and API mode with and without --skip-import-processing and TLC (TraceModes.tla) requires every emitted content to parse (go/parser) and every failure to be reported without emitting.",
+   technique="TLA+ pipeline model + trace validation; mode relation checked by TLC on recorded runs"),
+ "C12": dict(level="model_checking", ref="5/C12", note=RUNTRUST,
+   text="'No file-mutating system call and unchanged tree digest in dry-run modes' and 'descriptions only on stderr and only for files a described change applied to' are invariants of Pipeline.tla (TLC, all scenarios in the bounds) and are evaluated on strace + digest observations of real runs over all 24 dry-run flag combinations; the agreement of written / printed / diff-applied / API bytes is a TLA+ relation (TraceModes.tla) evaluated on recorded runs of each case in every mode.",
+   technique="TLA+ pipeline model + strace observation + mode-agreement relation evaluated by TLC"),
+ "C16": dict(level="fault_enumeration", ref="5/C16", note=RUNTRUST,
+   text="TLC enumerates every fault placement (unreadable target, file-size limit, failing rename, kill before the rename) at every file of runs of up to 2 (thorough: 3) files with every kind of per-file failure, and checks atomicity at every instant plus the reporting predicates on the model; the same scenarios are realised on the unmodified binary (strace -e inject, prlimit --fsize) and the predicates are evaluated on what is on disk and on stderr afterwards.",
+   technique="TLA+ pipeline model with fault actions + TLC + fault injection on the real binary + trace validation"),
+})
+
 NOT_YET = {
 }
 
@@ -56,6 +72,9 @@ def main():
             "add_only": True,
         },
         "engines": [
+            {"name": "tla-run", "path": "spec/Pipeline.tla spec/TracePipeline.tla spec/TraceModes.tla harness/cli.go lib/fam_run.py lib/fam_emit.py",
+             "serves_properties": ["C06", "C07", "C12", "C16"],
+             "kind_free_text": "state machine of the command's run pipeline with fault actions; hook-event and black-box trace validation of real CLI runs (strace, prlimit)"},
             {"name": "tla-rewrite", "path": "spec/Pattern.tla spec/RewriteUniverse.tla spec/MCRewrite.tla spec/TraceRewrite.tla harness/",
              "serves_properties": ["C01", "C02", "C03", "C04", "C05"],
              "kind_free_text": "TLA+ P-layer/I-layer of the pattern language; TLC design check; vectors replayed into patch.Parse/File.Apply; TLC trace validation"},
